@@ -14,7 +14,7 @@ msg = st.fixed_dictionaries({
     "szo": st.sampled_from([0, 0, -1, 1, -2, 2, 5]),
     "k0": st.sampled_from([0, 1, 2, 3, 8, 40, 100, 300]),
 }, optional={
-    "c": st.integers(0, 3), "g": st.integers(0, 2),
+    "c": st.integers(0, 3), "g": st.integers(0, 2), "szm": st.integers(0, 9), "roomy": st.sampled_from([True, True, True, False]),
     "self": st.sampled_from([False, False, False, False, True]),
     "sm": st.sampled_from(["std", "std", "std", "ssend", "ssend", "bsend"]),
     "sk": st.sampled_from([0, 0, 1, 2, 3, 5]),
@@ -43,6 +43,7 @@ def cases(draw, maxmsgs):
             "comms": draw(st.lists(comm, max_size=2)),
             "wall": draw(st.sampled_from([0, 0, 1, 2, 3, 3])),
             "rlate": draw(st.sampled_from([0, 0, 1])),
+            "mix": draw(st.sampled_from([0, 0, 0, 1, 2])),
             "tys": draw(st.lists(st.sampled_from([0, 0, 0, 1, 2, 3]), min_size=1, max_size=3)),
             "fan": draw(st.sampled_from([0, 0, 0, 1, 1, 2, 2, 3, 3, 3])),
             "snb": draw(st.sampled_from([0, 1])),
@@ -53,7 +54,7 @@ class C28(core.Prop):
     id = "C28"
     ready = True
     drivers = ["mpi2_interp"]
-    sizes = {"quick": 400, "thorough": 12000}
+    sizes = {"quick": 2000, "thorough": 20000}
     max_workers = 6
     technique = ("property-based testing (Hypothesis): generated deadlock-free MPI programs (safety of every allowed matching proved by an "
                  "exhaustive matching explorer), validity predicate over the statuses, return codes and buffers of every rank")
@@ -97,6 +98,19 @@ class C28(core.Prop):
                         continue
                     res.append({"np": 2, "thr": thr, "comms": [], "fan": 3,
                                 "msgs": [m(tag=tags[0], wt=True, **a), m(tag=tags[1], wt=True, **b_)]})
+        # a late wildcard receive that examines a SMALL candidate it must refuse (its same-tag predecessor waits in the other mailbox)
+        # and then accepts a LARGER message queued behind it: one sender + ANY_TAG (mix 1), two senders + ANY_SOURCE (mix 2).
+        # palette index (szm): 0 = T, 1 = 0 bytes, 2 = 1 byte, 3 = T-1, 4 = T/2 (T = smpi/async-small-thresh)
+        mm = lambda **kw: dict({"s": 0, "d": 0, "tag": 0, "szc": 0, "szo": 0, "k0": 0}, **kw)
+        for thr in THRESHOLDS:
+            if thr[0] < 16:
+                continue
+            for first in (dict(szm=0), dict(szm=2, sm="ssend")):
+                for a_, b_ in ((1, 4), (2, 3), (2, 4)):
+                    res.append({"np": 2, "thr": thr, "comms": [], "mix": 1,
+                                "msgs": [mm(tag=0, **first), mm(tag=0, szm=a_), mm(tag=1, szm=b_)]})
+                    res.append({"np": 3, "thr": thr, "comms": [], "mix": 2,
+                                "msgs": [mm(s=0, **first), mm(s=0, szm=a_), mm(s=1, szm=b_, sz=[1, 0])]})
         return res
 
     def check(self, case):
@@ -140,6 +154,8 @@ class C28(core.Prop):
         M = b.msgs
         L.add("np=%d" % b.np)
         L.add("thr=%d/%d" % tuple(b.thr))
+        if b.mix:
+            L.add("mix=%d" % b.mix)
         ex = b.explorer
         L.add("matchings=%s" % (len(ex.totals) if len(ex.totals) < 3 else "3+"))
         nontrivial = False
@@ -174,6 +190,11 @@ class C28(core.Prop):
                     L.add(op["mode"] + "+recv")
                 elif t in ("sendrecv", "peek", "isend", "irecv", "sleep"):
                     L.add(t)
+        for r, a, c, pr, kind in b.refused_candidates():
+            L.add("refused-candidate-then-accepted:" + kind)
+            # ... and the explorer's most-progress execution has the three messages pending together with the receive
+            if {a, c, pr} <= set(ex.together.get(r, ())):
+                L.add("refused-candidate-then-accepted:" + kind + ":pending-together")
         if b.use_hoist and any(m["rh"] > 0 and m["rk"] == "irecv" for m in M):
             L.add("hoisted-irecv")
         oc.labels = sorted(L)
